@@ -71,3 +71,179 @@ fn ordering_op_on_i64__mathematical() {
     assert!(op.matches_opt(a.strict_partial_cmp(&b)) == want);
     kani::cover!(a == i64::MIN && b == i64::MAX);
 }
+
+// ---------------------------------------------------------------------------
+// The operator -> comparison-object table inside
+// `ComparisonExpr::compile_with_compiler`: each match arm is lifted mechanically
+// (kani/extract_arms.py, text unchanged) into `extracted::arm_*` and checked
+// modularly against the contract of `IndexExpr::compile_with` (see common.rs).
+use super::common::*;
+use super::extracted;
+use crate::execution_context::ExecutionContext;
+use crate::lhs_types::Bytes;
+use crate::scheme::verif_kani::common::scheme_of;
+use std::net::{IpAddr, Ipv4Addr, Ipv6Addr};
+
+fn want_ord<T: PartialOrd>(op: OrderingOp, a: T, b: T) -> bool {
+    match op {
+        OrderingOp::Equal => a == b,
+        OrderingOp::NotEqual => a != b,
+        OrderingOp::GreaterThanEqual => a >= b,
+        OrderingOp::LessThanEqual => a <= b,
+        OrderingOp::GreaterThan => a > b,
+        OrderingOp::LessThan => a < b,
+    }
+}
+
+fn check_default(op: OrderingOp, nil: bool) {
+    unsafe {
+        assert!(REC_CALLS == 1 && REC_VEC_CALLS == 0, "exactly one comparison object is compiled");
+        assert!(
+            REC_DEFAULT == Some(if op == OrderingOp::NotEqual { nil } else { false }),
+            "absent left side: false, except != which is the scheme's nil-not-equal setting"
+        );
+    }
+}
+
+/// The statements before `match self.op`: `lhs` is the comparison's left side,
+/// `nil_not_equal_behavior` is the scheme's setting, the operator is untouched.
+#[kani::proof]
+#[kani::unwind(3)]
+fn compile_prologue__nil_setting_is_the_schemes() {
+    let nil: bool = kani::any();
+    let scheme = scheme_of(&[(Type::Int, false)], nil);
+    let b: i64 = kani::any();
+    let expr = ComparisonExpr {
+        lhs: field_lhs(&scheme, 0),
+        op: ComparisonOpExpr::Int { op: IntOp::BitwiseAnd, rhs: b },
+    };
+    let (lhs, got, op) = extracted::prologue(expr);
+    assert!(got == nil, "nil_not_equal_behavior is the scheme's setting");
+    assert!(lhs.indexes.is_empty());
+    assert!(matches!(&lhs.identifier, IdentifierExpr::Field(f) if f.index() == 0));
+    assert!(matches!(op, ComparisonOpExpr::Int { op: IntOp::BitwiseAnd, rhs } if rhs == b));
+    std::mem::forget(lhs);
+    std::mem::forget(scheme);
+}
+
+/// `n <op> b` for an Int field: the comparison object handed to `compile_with`
+/// answers the mathematical comparison on all of i64 x i64 for every operator, and
+/// the default for an absent left side is the nil-not-equal setting for `!=`, false
+/// otherwise.
+#[kani::proof]
+#[kani::unwind(3)]
+#[kani::stub(crate::ast::index_expr::IndexExpr::compile_with, crate::ast::field_expr::verif_kani::common::compile_with__contract)]
+fn compile_ordering_int__operator_table_and_nil_default() {
+    let nil: bool = kani::any();
+    let scheme = scheme_of(&[(Type::Int, false)], true);
+    let ctx = ExecutionContext::<()>::new(&scheme);
+    let a: i64 = kani::any();
+    let b: i64 = kani::any();
+    let op = any_ordering_op();
+    unsafe {
+        PROBE = Some(LhsValue::Int(a));
+        CTX = &ctx as *const ExecutionContext<'_, ()> as *const ();
+    }
+    let compiled = extracted::arm_ordering(field_lhs(&scheme, 0), &mut NoCompiler, nil, op, RhsValue::Int(b));
+    std::mem::forget(compiled);
+    unsafe {
+        assert!(REC_RESULT == Some(want_ord(op, a, b)), "integer operator has its mathematical meaning");
+    }
+    check_default(op, nil);
+    kani::cover!(op == OrderingOp::NotEqual && nil);
+    kani::cover!(op == OrderingOp::LessThan && a == i64::MIN && b == i64::MAX);
+    std::mem::forget(ctx);
+    std::mem::forget(scheme);
+}
+
+/// `ip <op> lit`: per-family order, an IPv4 and an IPv6 address are unordered (only
+/// `!=` holds), nil default as above.
+#[kani::proof]
+#[kani::unwind(18)]
+#[kani::stub(crate::ast::index_expr::IndexExpr::compile_with, crate::ast::field_expr::verif_kani::common::compile_with__contract)]
+fn compile_ordering_ip__operator_table_and_nil_default() {
+    let nil: bool = kani::any();
+    let scheme = scheme_of(&[(Type::Ip, false)], true);
+    let ctx = ExecutionContext::<()>::new(&scheme);
+    let a4: u32 = kani::any();
+    let b4: u32 = kani::any();
+    let a6: u128 = kani::any();
+    let b6: u128 = kani::any();
+    let a_is4: bool = kani::any();
+    let b_is4: bool = kani::any();
+    let a = if a_is4 { IpAddr::V4(Ipv4Addr::from(a4)) } else { IpAddr::V6(Ipv6Addr::from(a6)) };
+    let b = if b_is4 { IpAddr::V4(Ipv4Addr::from(b4)) } else { IpAddr::V6(Ipv6Addr::from(b6)) };
+    let op = any_ordering_op();
+    unsafe {
+        PROBE = Some(LhsValue::Ip(a));
+        CTX = &ctx as *const ExecutionContext<'_, ()> as *const ();
+    }
+    let compiled = extracted::arm_ordering(field_lhs(&scheme, 0), &mut NoCompiler, nil, op, RhsValue::Ip(b));
+    std::mem::forget(compiled);
+    let want = if a_is4 && b_is4 {
+        want_ord(op, a4, b4)
+    } else if !a_is4 && !b_is4 {
+        want_ord(op, a6, b6)
+    } else {
+        op == OrderingOp::NotEqual
+    };
+    unsafe {
+        assert!(REC_RESULT == Some(want), "per-family IP order; across families only != holds");
+    }
+    check_default(op, nil);
+    kani::cover!(a_is4 && !b_is4 && op == OrderingOp::NotEqual);
+    std::mem::forget(ctx);
+    std::mem::forget(scheme);
+}
+
+/// `n & mask` (bitwise-and test): true iff some bit is common, on all of i64 x i64
+/// (including results with only the sign bit set); absent left side: false.
+#[kani::proof]
+#[kani::unwind(3)]
+#[kani::stub(crate::ast::index_expr::IndexExpr::compile_with, crate::ast::field_expr::verif_kani::common::compile_with__contract)]
+fn compile_bitwise_and__nonzero_intersection() {
+    let nil: bool = kani::any();
+    let scheme = scheme_of(&[(Type::Int, false)], true);
+    let ctx = ExecutionContext::<()>::new(&scheme);
+    let a: i64 = kani::any();
+    let b: i64 = kani::any();
+    unsafe {
+        PROBE = Some(LhsValue::Int(a));
+        CTX = &ctx as *const ExecutionContext<'_, ()> as *const ();
+    }
+    let compiled = extracted::arm_int_bitwise_and(field_lhs(&scheme, 0), &mut NoCompiler, nil, b);
+    std::mem::forget(compiled);
+    unsafe {
+        assert!(REC_CALLS == 1 && REC_VEC_CALLS == 0);
+        assert!(REC_RESULT == Some((a & b) != 0), "bitwise-and test: some common bit");
+        assert!(REC_DEFAULT == Some(false), "absent left side is false");
+    }
+    kani::cover!(a < 0 && b < 0);
+    std::mem::forget(ctx);
+    std::mem::forget(scheme);
+}
+
+/// A bare boolean field: the comparison object is the field's value; absent: false.
+#[kani::proof]
+#[kani::unwind(4)]
+#[kani::stub(crate::ast::index_expr::IndexExpr::compile_with, crate::ast::field_expr::verif_kani::common::compile_with__contract)]
+#[kani::stub(crate::ast::index_expr::IndexExpr::compile_vec_with, crate::ast::field_expr::verif_kani::common::compile_vec_with__contract)]
+fn compile_is_true__bare_boolean_field() {
+    let nil: bool = kani::any();
+    let scheme = scheme_of(&[(Type::Bool, false)], true);
+    let ctx = ExecutionContext::<()>::new(&scheme);
+    let a: bool = kani::any();
+    unsafe {
+        PROBE = Some(LhsValue::Bool(a));
+        CTX = &ctx as *const ExecutionContext<'_, ()> as *const ();
+    }
+    let compiled = extracted::arm_is_true(field_lhs(&scheme, 0), &mut NoCompiler, nil);
+    std::mem::forget(compiled);
+    unsafe {
+        assert!(REC_CALLS == 1 && REC_VEC_CALLS == 0, "a Bool field compiles to a single-boolean expression");
+        assert!(REC_RESULT == Some(a), "a bare boolean field is its value");
+        assert!(REC_DEFAULT == Some(false), "absent boolean field is false");
+    }
+    std::mem::forget(ctx);
+    std::mem::forget(scheme);
+}
